@@ -309,6 +309,117 @@ def scan_bounds(cx):
     cx.check(n >= 2, "floor", "scan call sites were found")
 
 
+@obligation("PANIC.array_index", ["C20"], floor=2, kind="bounded-index idioms on fixed-size arrays",
+            why="an index into a fixed-size stack array that can reach the array length is a panic for large voter sets, reachable by ordinary use")
+def array_index(cx):
+    import re
+    n = 0
+    for k, f in cx.facts.fns.items():
+        if f.crate != "raft":
+            continue
+        a = cx.prog.an[k]
+        g = None
+        for bi in sorted(a.reach):
+            t = f.body.blocks[bi]["term"]
+            if t["k"] != "assert" or "BoundsCheck" not in str(t.get("msg")):
+                continue
+            tb = f.body.blocks[t["target"]]
+            arr = None
+            for st in tb["stmts"][:3]:
+                for pl in [st.get("place"), st.get("rv", {}).get("use", {}).get("copy"), st.get("rv", {}).get("use", {}).get("move")]:
+                    if pl and any(isinstance(p_, dict) and "index" in p_ for p_ in pl.get("p", [])):
+                        ty = f.body.local_ty(pl["l"]) or ""
+                        m = re.match(r"^\[.*; (\d+)\]$", ty)
+                        if m:
+                            arr = (pl["l"], int(m.group(1)))
+            if arr is None:
+                continue
+            N = arr[1]
+            # the compared index: `_c = Lt(idx, const N)` in the assert's block
+            idx_local = None
+            for st in f.body.blocks[bi]["stmts"]:
+                rv = st.get("rv", {})
+                if rv.get("bin") == "Lt" and rv["b"].get("const", {}).get("val", {}).get("int") == N:
+                    pl = rv["a"].get("copy") or rv["a"].get("move")
+                    if pl and not pl["p"]:
+                        idx_local = pl["l"]
+            site = Site(f, bi, "term", "index")
+            key = cx.site_key(site, "index[%d]" % N)
+            if idx_local is None:
+                cx.bad(key, "index into a [_; %d] array whose bound test could not be located" % N, site)
+                continue
+            g = g or cx.pg(f)
+            e = a.expr_local(idx_local, (bi, "term"))
+            gl = cx.guard_lits(site)
+            ok, how = False, ""
+            if e[0] == "int":
+                ok, how = e[1] < N, "constant index"
+            # (a) enumeration counter of a collection whose length was tested against N
+            if not ok and e[0] == "tfield" and e[2] == 0 and any(x[0] == "call" and "Enumerate" in x[1] for x in walk(e)):
+                ok = any(l[0] == "is" and l[2] is False and l[1][0] == "bin" and l[1][1] == "Lt" and l[1][2] == ("int", N) and l[1][3][0] == "call" and l[1][3][1].endswith("::len") for l in gl)
+                how = "enumeration counter of a collection with len() <= %d" % N
+            # (b) bounded counter: only ever 0 or itself + 1, incremented after the store, and tested against N (reset or
+            #     excluded) before the store
+            if not ok:
+                src = idx_local
+                for _ in range(3):
+                    ds = a.defs[src]
+                    if len(ds) == 1 and ds[0][2] == "assign" and "use" in ds[0][3]:
+                        pl = ds[0][3]["use"].get("copy") or ds[0][3]["use"].get("move")
+                        if pl and not pl["p"]:
+                            src = pl["l"]
+                            continue
+                    break
+                ds = a.defs[src]
+                shapes_ok = bool(ds)
+                incs = []
+                for d in ds:
+                    if d[2] != "assign":
+                        shapes_ok = False
+                        continue
+                    rv = d[3]
+                    if rv.get("use", {}).get("const", {}).get("val", {}).get("int") == 0:
+                        continue
+                    if rv.get("bin") == "Add" and (rv["a"].get("copy") or rv["a"].get("move") or {}).get("l") == src and rv["b"].get("const", {}).get("val", {}).get("int") == 1:
+                        incs.append(d)
+                        continue
+                    shapes_ok = False
+                after = all(d[0] == t["target"] or g.block_reaches(t["target"], lambda b, d=d: b == d[0]) for d in incs) and all(not (d[0] == bi) for d in incs)
+                def is_n(x):
+                    # the array length, as a constant or as `arr.len()`
+                    return x == ("int", N) or (x[0] == "call" and x[1].endswith("::len") and len(x[2]) == 1 and x[2][0][0] in ("local", "phi") and x[2][0][1] == arr[0])
+
+                def is_cnt(x):
+                    return x[0] in ("phi", "local") and x[1] == src
+
+                def excluded(l):
+                    if l[0] == "is" and l[1][0] == "bin" and l[1][1] == "Eq" and any(is_n(x) for x in l[1][2:4]) and any(is_cnt(x) for x in l[1][2:4]):
+                        return l[2] is False
+                    if l[0] == "is" and l[1][0] == "bin" and l[1][1] == "Lt" and is_n(l[1][3]) and is_cnt(l[1][2]):
+                        return l[2] is True
+                    if l[0] == "notin" and l[1][0] in ("phi", "local") and l[1][1] == src and N in l[2]:
+                        return True
+                    return False
+                # every path to the store either passes the exclusion test or a reset to 0 after the last increment
+                zero_blocks = {d[0] for d in ds if d[2] == "assign" and d[3].get("use", {}).get("const", {}).get("val", {}).get("int") == 0}
+                inc_blocks = {d[0] for d in incs}
+                guarded = g.guarded((bi, "term"), lambda lits: any(excluded(l) for l in lits))[0]
+                if not guarded and zero_blocks:
+                    # reset form: `if cnt == N { flush; cnt = 0 }` -- the equal branch passes a reset, the other branch carries the exclusion
+                    def cmp_n(l):
+                        return l[0] == "is" and l[1][0] == "bin" and ((l[1][1] == "Eq" and any(is_n(x) for x in l[1][2:4]) and any(is_cnt(x) for x in l[1][2:4])) or (l[1][1] == "Lt" and is_cnt(l[1][2]) and is_n(l[1][3])))
+                    def at_bound(l):
+                        return cmp_n(l) and ((l[1][1] == "Eq" and l[2] is True) or (l[1][1] == "Lt" and l[2] is False))
+                    okz, nz = g.after_edge_must_pass(lambda lits: any(at_bound(l) for l in lits), lambda b: b in zero_blocks)
+                    tested = g.guarded((bi, "term"), lambda lits: any(cmp_n(l) for l in lits))[0]
+                    guarded = okz and nz >= 1 and tested
+                ok = shapes_ok and bool(incs) and after and guarded
+                how = "bounded counter (0 or +1 after the store; tested against %d before the store)" % N
+            cx.check(ok, key, "the index into the [_; %d] array stays below %d (%s)" % (N, N, how or "no bounded-index idiom recognised"), site)
+            n += 1
+    cx.check(n >= 2, "floor", "fixed-size array index sites were found")
+
+
 @obligation("PANIC.inventory", ["C20"], floor=1, kind="inventory (evidence only)",
             why="lists the panic-capable sites that remain undecided")
 def inventory(cx):
